@@ -347,6 +347,22 @@ pub fn nonce_scenarios(tier: Tier) -> Vec<NetScenario> {
         c.fates = vec![NFate::Ok, NFate::Drop, NFate::DupLate3, NFate::Delay2];
         v.push(c);
     }
+    // the server answers the first request, then hears nothing for a whole time-out; the client fails over to the
+    // second listed address (the same server) and completes the handshake there: its sequence numbers go on
+    {
+        let mut cl = ClientCfg::new(1);
+        cl.timeout = 2;
+        cl.addr_list = vec![0, 1];
+        let mut c = SimCfg::base("challenge, then 2.5 s of lost responses, fail-over to the second address of the same server", vec![cl]);
+        c.server_addrs = vec![server_addr(0), server_addr(1)];
+        c.alive = vec![true, true];
+        c.c2s_blackout_window = Some((1, 11));
+        c.fault_from = 11;
+        c.horizon = 14;
+        c.tail = 10;
+        c.fates = vec![NFate::Ok, NFate::Drop, NFate::Dup];
+        v.push(c);
+    }
     // three clients connecting on an already used server (handshake replies use the shared counter)
     {
         let mut c2 = ClientCfg::new(2);
